@@ -71,7 +71,9 @@ Engine::PluginRet SystemdRestart<Base>::run(OomdContext& /* unused */) {
     std::ostringstream oss;
     oss << "restarted systemd service=" << service_ << (dry_ ? " (dry)" : "");
     OOMD_KMSG_LOG(oss.str(), "oomd kill");
-    Oomd::incrementStat(kRestartsKey, 1);
+    if (!dry_) {
+      Oomd::incrementStat(kRestartsKey, 1);
+    }
     std::this_thread::sleep_for(std::chrono::seconds(post_action_delay_));
     return Engine::PluginRet::STOP;
   } else {
